@@ -114,13 +114,66 @@ def oracle_dynamic(ctx, stores):
     return bad
 
 
+def source_labels(text):
+    """label -> 0-based line of the instruction it names, read off the SOURCE: the next instruction in the text (blank lines,
+    comments, directives and further labels in between do not matter)"""
+    import re
+    pending, m = [], {}
+    for i, l in enumerate(text.split("\n")):
+        t = l.split("#")[0].strip()
+        while True:
+            mm = re.match(r"^([A-Za-z_]\w*):\s*(.*)$", t)
+            if not mm:
+                break
+            pending.append(mm.group(1))
+            t = mm.group(2)
+        if not t or t.startswith("."):
+            continue
+        for p_ in pending:
+            m.setdefault(p_, i)
+        pending = []
+    return m
+
+
+def oracle_source_targets(ctx, stores):
+    """a jump, branch or call goes to the instruction that its label names IN THE SOURCE (independent of how the graph
+    builder attached labels to nodes): the graph must have that node as successor, or as a function entry for a call"""
+    sel = [(f, b, t) for f, b, t in stores if t.split(":")[0] in ("conforming", "flow", "labeldir", "injected") and len(f) == 1 and '"' not in f[0][1] and "'" not in f[0][1]]
+    impl = lib.run_impl(ctx, [lib.store_cmd("cfg dir -", f, b) for f, b, _ in sel], tag="oracle-src")
+    prs = lib.run_impl(ctx, [lib.store_cmd("parse", f, b) for f, b, _ in sel], tag="oracle-src-parse")
+    bad = []
+    for (f, b, tag), line, pl in zip(sel, impl, prs):
+        g = dump.parse(lib._PICKS.sub("", line))
+        if g is None or " E(" in pl or pl.startswith("E("):
+            continue          # (a line that does not parse is no instruction: the labels before it name the next one)
+        ns = g["nodes"]
+        lab = source_labels(f[0][1])
+        line_of = lambda n: int(n.raw.split(".")[0])
+        why = None
+        for n in ns:
+            if n.kind not in ("jumplink", "branch"):
+                continue
+            tgt = lib.dec(dump.val(n.body[-1]))
+            if tgt not in lab:
+                continue
+            if n.kind == "jumplink" and dump.val(n.body[2]) == "1":
+                if not any(m.kind == "funcentry" and line_of(m) == lab[tgt] for m in ns):
+                    why = "node %d calls %r, which names the instruction on line %d, but there is no function entry for that instruction" % (n.idx, tgt, lab[tgt] + 1)
+            elif not any(x < len(ns) and line_of(ns[x]) == lab[tgt] for x in n.nexts):
+                why = "node %d transfers control to %r, which names the instruction on line %d; its successors are on lines %s" % (
+                    n.idx, tgt, lab[tgt] + 1, [line_of(ns[x]) + 1 for x in n.nexts if x < len(ns)])
+        if why:
+            bad.append(dict(files=f, base=b, kind=tag, why=why, graph=line[:1200]))
+    return bad
+
+
 def both(ctx, stores):
-    return oracle(ctx, stores) + oracle_transfers(ctx, stores) + oracle_dynamic(ctx, stores)
+    return oracle(ctx, stores) + oracle_transfers(ctx, stores) + oracle_dynamic(ctx, stores) + oracle_source_targets(ctx, stores)
 
 
 def run(ctx):
     generic.run(ctx, "C03+C03dyn", ["dir", "dead", "term1", "markup", "term2", "live"],
-                dict(conforming=30, flow=120, random=60, injected=30, handlers=20, cutflow=60), oracle=both, what="CFG construction")
+                dict(conforming=30, flow=120, random=60, injected=30, handlers=20, cutflow=60, labeldir=40), oracle=both, what="CFG construction")
 
 
 replay = generic.replay
